@@ -14,6 +14,7 @@ def alts (tb : Tables) (c : Case) : List Alt :=
       obs := runModel tb c { cur with skipTable := if tb.skip.accumulates then Skip.tableAssign else Skip.tableOr } },
     { flag := "D19", onInCur := cur.fragPathSegment, obs := runModel tb c { cur with fragPathSegment := !cur.fragPathSegment } },
     { flag := "D11", onInCur := cur.opFallbackAnyName, obs := runModel tb c { cur with opFallbackAnyName := !cur.opFallbackAnyName } },
+    { flag := "D96", onInCur := cur.anonAmongOthers, obs := runModel tb c { cur with anonAmongOthers := !cur.anonAmongOthers } },
     { flag := "D20", onInCur := cur.keepValueOnError, obs := runModel tb c { cur with keepValueOnError := !cur.keepValueOnError } } ]
 
 /-- the data part of an observation -/
@@ -71,7 +72,11 @@ def handle (tb : Tables) (c impl : T) : String :=
       | none, some d, some calls => (d == .atom "none" || d == .node "null" []) && calls == T.list []
       | _, _, _ => false
     if impl == cur then
-      if specOk || cs.ops.any (fun o => conflicting o.sels) then "ok"
+      -- (a document with an operation without a name next to others is not valid GraphQL either: once it is
+      -- rejected, whatever name the caller gave, no resolver runs and there is no data)
+      let rejected := !(cfgCur tb).anonAmongOthers && !loneAnonymousOk cs.ops &&
+        callsOf impl == some (T.list []) && dataOf impl == some (.atom "none")
+      if specOk || rejected || cs.ops.any (fun o => conflicting o.sels) then "ok"
       else
         let trig := (alts tb cs).filter (fun a => a.onInCur && !(a.obs == cur))
         let extra : List String :=
@@ -86,6 +91,6 @@ def handle (tb : Tables) (c impl : T) : String :=
       | none => "mismatch " ++ (if specOk then "spec-ok " else "spec-bad ") ++ cur.render
 
 def flags (tb : Tables) : List (String × Bool) :=
-  [("D11", (cfgCur tb).opFallbackAnyName), ("D12-data", tb.dupKeyOverwrites), ("D14", (cfgCur tb).condByIdentity)]
+  [("D11", (cfgCur tb).opFallbackAnyName), ("D12-data", tb.dupKeyOverwrites), ("D14", (cfgCur tb).condByIdentity), ("D96", (cfgCur tb).anonAmongOthers)]
 
 end Ggql.Driver.C01
